@@ -29,8 +29,8 @@ ENUM = {
 }
 POOL = 12
 CHUNK = 4000
-RULE = ("enc: every (injective vocabulary of <= 3 of 5 (quick) / 6 (thorough) tags over terms sharing a name or a label, plus tags on terms sharing a URI under different names / a name under different URIs and tags whose values differ only by surrounding whitespace, tag list of <= 3 with "
-        "repeats and outsiders, two quarter-score patterns) of the TLA+ enumeration, plus random vocabularies of <= 8 of 17 "
+RULE = ("enc: every (injective vocabulary of <= 3 of 5 (quick) / 6 (thorough) tags over terms sharing a name or a label, plus tags on terms sharing a URI under different names / a name under different URIs tags whose values differ only by surrounding whitespace and tags on terms that differ only in an extra attribute, tag list of <= 3 with "
+        "repeats and outsiders, two quarter-score patterns) of the TLA+ enumeration, plus random vocabularies of <= 8 of 19 "
         "tags with lists of <= 8; pair: every ordered pair of freshly built objects of the eight hashable classes over two- to "
         "four-value field domains, plus model-equal (quick) / at most one field apart (thorough) pairs whose members were "
         "derived from an already hashed object by model_copy(update), attribute assignment, deep copy or a dump/validate "
@@ -52,10 +52,12 @@ _TERMS = [
     dict(name="n4", label="l4", definition="d", uri="u1"),   # T5
     dict(name="n5", label="l4", definition="d", uri="u1"),   # T6  T5's URI under another name
     dict(name="n4", label="l4", definition="d", uri="u2"),   # T7  T5's name and label under another URI
+    dict(name="n1", label="l1", definition="d", status="draft"),   # T8  T1 in every declared field + an extra attribute
+    dict(name="n1", label="l1", definition="d", status="final"),   # T9  ... with another value
 ]
 _VALUES = ["a", "b", "c", "a ", " a"]          # the last two differ from "a" only by surrounding whitespace
 _UTAG = [(1, 1), (1, 2), (2, 1), (3, 1), (4, 1), (4, 2), (2, 2), (3, 2), (1, 3), (2, 3), (3, 3), (4, 3),
-         (5, 1), (6, 1), (7, 1), (1, 4), (1, 5)]
+         (5, 1), (6, 1), (7, 1), (1, 4), (1, 5), (8, 1), (9, 1)]
 
 
 _WRITE = {"explicit": False, "extras": None}      # how terms / objects are written down inside a _written(...) block
@@ -110,7 +112,7 @@ def _which(tag):
     for u, (t, v) in enumerate(_UTAG, start=1):
         d = _TERMS[t - 1]
         if (tag.value == _VALUES[v - 1] and tag.term.name == d["name"] and tag.term.label == d["label"]
-                and tag.term.uri == d.get("uri")):
+                and tag.term.uri == d.get("uri") and (tag.term.model_extra or {}).get("status") == d.get("status")):
             return u
     return 0
 
@@ -149,10 +151,16 @@ def _enc(case):
 
 # ---------------------------------------------------------------- objects of the pair cases
 _U = [_uuid.UUID(int=0xA1), _uuid.UUID(int=0xB2)]
-_T = [datetime.datetime(2020, 1, 1, 12, 0, 0), datetime.datetime(2021, 6, 1, 8, 30, 0)]
+_UTC = datetime.timezone.utc
+_CET = datetime.timezone(datetime.timedelta(hours=1))
+# the last two are ONE instant written with two UTC offsets (12:00Z = 13:00+01:00): equal datetimes
+_T = [datetime.datetime(2020, 1, 1, 12, 0, 0), datetime.datetime(2021, 6, 1, 8, 30, 0),
+      datetime.datetime(2020, 1, 1, 12, 0, 0, tzinfo=_UTC), datetime.datetime(2020, 1, 1, 13, 0, 0, tzinfo=_CET)]
 
 
 def _rec(k):
+    if k == 3:        # recording 1 again, its path spelled differently (the same path for pathlib)
+        return data.Recording(uuid=_uuid.UUID(int=0x101), path="./r1.wav", duration=10, channels=1, samplerate=8000)
     return data.Recording(uuid=_uuid.UUID(int=0x100 + k), path=f"r{k}.wav", duration=10.0, channels=1, samplerate=8000)
 
 
@@ -187,12 +195,12 @@ FIELDS = {
                                     ("notes", lambda k: [] if k == 1 else [data.Note(uuid=_U[0], message="m", created_on=_T[0])])],
         {"created_on": _T[0]}),
     7: (data.SoundEventPrediction, [("uuid", lambda k: _U[k - 1]), ("sound_event", _se),
-                                    ("score", lambda k: [0.5, 1.0][k - 1]), ("tags", lambda k: [] if k == 1 else [_PTAG()])], {}),
+                                    ("score", lambda k: [0.5, 1.0, 1][k - 1]), ("tags", lambda k: [] if k == 1 else [_PTAG()])], {}),
     8: (data.ClipPrediction, [("uuid", lambda k: _U[k - 1]), ("clip", _clip),
                               ("tags", lambda k: [] if k == 1 else [_PTAG()]),
                               ("features", lambda k: [] if k == 1 else [_FEAT()])], {}),
 }
-_DOM = {1: [2, 2, 2, 2, 3, 2], 2: [7, 2], 3: [7, 5], 4: [2, 2, 2, 2], 5: [2, 2, 2, 2], 6: [2, 2, 2, 2], 7: [2, 2, 2, 2], 8: [2, 2, 2, 2]}
+_DOM = {1: [2, 2, 2, 2, 3, 2], 2: [7, 2], 3: [7, 5], 4: [2, 2, 2, 4], 5: [2, 2, 3, 2], 6: [2, 2, 2, 2], 7: [2, 2, 3, 2], 8: [2, 2, 2, 2]}
 
 
 def _build(cls, x):
@@ -255,13 +263,13 @@ def execute(case):
 
 
 def random_cases(rng, tier):
-    """Larger vocabularies (<= 8 of all 17 universe tags) and longer lists (<= 8) than TLC enumerates."""
+    """Larger vocabularies (<= 8 of all 19 universe tags) and longer lists (<= 8) than TLC enumerates."""
     n = 1500 if tier == "quick" else 15000
     for _ in range(n):
         nv = rng.randrange(0, 9)
-        vocab = rng.sample(range(1, 18), nv)
+        vocab = rng.sample(range(1, 20), nv)
         lt = rng.randrange(0, 9)
-        pool = vocab if (vocab and rng.random() < 0.3) else list(range(1, 18))
+        pool = vocab if (vocab and rng.random() < 0.3) else list(range(1, 20))
         tags = [rng.choice(pool) for _ in range(lt)]
         if tags and rng.random() < 0.5:           # force repeats
             tags[rng.randrange(lt)] = tags[0]
@@ -291,9 +299,9 @@ MANIFEST = {
              "(constructor; hashed donor then model_copy(update) / attribute assignment; hashed then deep copy / dump-validate "
              "round trip; constructor with every optional field passed explicitly), and vocabulary / query tags of the encoders "
              "written differently, so a hash that remembers a derivation or sees which fields were set is refuted (controls "
-             "history/MC_Encoding_hash_memo, _hash_fields_set, _hash_extras_order, _eq_uri, _eq_nan, _key_strip_value; Terms also carry two extra "
+             "history/MC_Encoding_hash_memo, _hash_fields_set, _hash_extras_order, _eq_uri, _eq_nan, _key_strip_value, _hash_note_iso, _key_declared_fields; Terms also carry two extra "
              "attributes given in either order; the encoder is also judged against the OBSERVED equality "
-             "of query and vocabulary tags, EncodeIffObservedEqual) -- plus random vocabularies of <= 8 of 17 tags "
+             "of query and vocabulary tags, EncodeIffObservedEqual) -- plus random vocabularies of <= 8 of 19 tags "
              "with lists of <= 8, and TLC validates the observations clause by clause."),
     "note": ("trusted: TLC, binder checks/c19.py (encoder; objects rebuilt for every use so identity cannot help); the hash "
              "clause is the contract, not the projection: different but sound hashes pass (mutants/C19/must_pass)"),
